@@ -105,6 +105,13 @@ def run(ctx):
               ('as_completed', dict(W=3, T=3, bad=2, menu=MENU, shuffle=True)),
               ('as_completed', dict(W=2, T=3, bad=1, ignore=True, menu=MENU,
                                     shuffle=True))]
+  shuffled += [('sharded', dict(W=2, S=2, total=4, batch=2, menu=MENU,
+                                shuffle=True))]
+  if not ctx.quick:
+    shuffled += [('sharded', dict(W=3, S=3, total=6, batch=2, menu=MENU,
+                                  shuffle=True)),
+                 ('sharded', dict(W=2, S=3, total=6, batch=2, menu=MENU,
+                                  shuffle=True, push=False))]
   explorer.explore_all(ctx, MODULE, shuffled, pre_bound=-1,
                        dev_bound=2 if ctx.quick else 3, split=8)
   shc = sharded_configs(ctx.tier)
